@@ -15,10 +15,11 @@ import Pog.Lemmas.SanIdem
   request media types), tied to the emitted code by `corr_gencode.py`.   `✗` = FALSE of the current code.
 
     at most one request, always                                                    (full)    `exactly_one_request`
-    exactly one request for a well-typed call of a single-media operation          (partial) `exactly_one_request`
-    … of an operation with several media types (all positionals, one body keyword)  (partial) `exactly_one_request_multi`
+    exactly one request for a well-typed call (one, no or several media types)      (partial) `exactly_one_request`
     the twice-sanitised signature name = the once-sanitised URL name               (full)    `ident_eq` (`Pog.sanMethod_idempotent`)
     the URL f-string of the single-media method never reads an unbound name         (full)    `url_ok`
+    … nor that of the method for several media types, unless a variable is named
+      `form_data` / `bytes_content`                                                 (full)    `multi_path_vars_bound`, `multi_content_path_var_named_form_data_witness`
     method / substituted path / query / headers / cookies / body                    (partial) `request_fidelity_partial`
     optional argument left as None is omitted                                      (full)    `optional_none_omitted`
     ≥ 2 request media types: an optional request body can be omitted               full      `optional_body_omitted_former_witness` (F62 repaired),
@@ -26,12 +27,14 @@ import Pog.Lemmas.SanIdem
     cookie parameters are sent                                                     full      `cookie_sent_former_witness` (F11 repaired), the cookie
                                                                                               entries of `request_fidelity_partial`
     every query / header / cookie entry stems from a parameter declared there       (full)    `no_entry_without_parameter`
-    ≥ 2 request media types: query and header arguments are sent                   ✗         `multi_content_drops_query_counterexample`, `multi_content_drops_query`
+    ≥ 2 request media types: query, header and cookie arguments are sent, optional
+      parameters are optional, undeclared path variables work                      full      `multi_content_sends_query_former_witness`,
+                                                                                              `multi_content_optional_former_witness`,
+                                                                                              `multi_content_undeclared_path_var_former_witness` (F12 repaired);
+                                                                                              `request_fidelity_partial` no longer excludes them
     an operation-level parameter overrides the path-level one of the same name     full      `path_level_override_former_witness` (F4 repaired), `irParams_no_duplicate_key`
     an integer / number / boolean header argument is sent in its string form       full      `nonstr_header_former_witness` (F39 repaired),
                                                                                               `typed_header_is_str`; the entries of `request_fidelity_partial`
-    ≥ 2 media types: optional parameters are optional / undeclared path variables work  ✗     `multi_content_optional_is_required_counterexample`,
-                                                                                              `multi_content_undeclared_path_var_counterexample`
     a declared parameter named `body` and the JSON body are distinct                ✗         `body_name_collision_counterexample`
 -/
 /-
@@ -47,13 +50,11 @@ open Pog Pog.GenCode
 
 /-! ## the hypotheses of the partial theorems -/
 
-/-- A well-typed call of a single-media (or body-less) operation whose module can be imported.
-    Every field is one excluded input class. -/
+/-- A well-typed call of an operation whose module can be imported - with one request media type, none, or (F12
+    repaired) several.  Every field is one excluded input class. -/
 structure StdCall (op : Op) (args : GArgs) : Prop where
   /-- sanitised names distinct, aliases exist, … : the emitted module imports (`moduleOk`) -/
   importable : moduleOk op = true
-  /-- at most one request media type (`singleMedia`) -/
-  single : isMulti op = false
   /-- only keywords of the signature, every required one present -/
   bound : bindOk (sigOf op) args = true
   /-- well-typed: the argument of a header or cookie parameter that is NOT declared integer / number / boolean is a
@@ -61,8 +62,18 @@ structure StdCall (op : Op) (args : GArgs) : Prop where
       number / boolean takes any value - it is sent as `str(value)`.) -/
   headerStr : ∀ p ∈ op.params, p.loc = .header ∨ p.loc = .cookie → p.kind = .plain →
     (argVal args p.ident).isStr = true ∨ (p.required = false ∧ argVal args p.ident = .none)
-  /-- not the `multipart/form-data; boundary=…` media-type key that makes the method read an unbound name -/
-  bodyKnown : ∀ b mt, op.body = some b → primaryBody b.media = some (mt, .bytes) → GenCode.isInfix mtMultipart mt = false
+  /-- (one media type) not the `multipart/form-data; boundary=…` media-type key that makes the method read an unbound
+      name -/
+  bodyKnown : isMulti op = false →
+    ∀ b mt, op.body = some b → primaryBody b.media = some (mt, .bytes) → GenCode.isInfix mtMultipart mt = false
+  /-- (several media types) well-typed: a REQUIRED request body is given under one of the content-type keywords - they
+      all default to `None` in the signature, the method checks at run time (`ValueError`) -/
+  bodyGiven : isMulti op = true →
+    (∃ b, dispatchBody args ((op.body.map (·.media)).getD []) = some b) ∨ (op.body.map (·.required)).getD true = false
+  /-- (several media types) every `{var}` of the template is a parameter of the method - always, unless a variable is
+      named like the body parameter of the single-content method that is no content-type keyword (`form_data`,
+      `bytes_content`): `multi_path_vars_bound` -/
+  pathBound : isMulti op = true → ∀ v ∈ pathVars op.path, sanMethod v ∈ (sigOf op).map (·.1)
 
 /-- No parameter with an unknown `in` (the loader copies `in` verbatim; only path / query / header / cookie have a place
     in a request) and every declared path parameter occurs in the template.  (F11 repaired: cookie parameters are no
@@ -70,6 +81,11 @@ structure StdCall (op : Op) (args : GArgs) : Prop where
 structure AllSendable (op : Op) : Prop where
   knownLoc : ∀ p ∈ op.params, p.loc = .path ∨ p.loc = .query ∨ p.loc = .header ∨ p.loc = .cookie
   pathUsed : ∀ p ∈ op.params, p.loc = .path → p.name ∈ pathVars op.path
+
+/-- The body keyword of the one transport call: `stdBody` in the single-content method, the branch of the runtime
+    dispatch (`ovlBody`) in the implementation method for several media types. -/
+def reqBody (op : Op) (args : GArgs) : Except CallErr BodyArg :=
+  if isMulti op then ovlBody op args else stdBody op args
 
 /-- The signature sanitises a parameter name twice, the URL f-string once: the same identifier, because
     `sanitize_method_name` is idempotent (`Pog.sanMethod_idempotent`). -/
@@ -79,7 +95,8 @@ theorem toS_query : GLoc.query.toS ≠ SLoc.path := by decide
 theorem toS_header : GLoc.header.toS ≠ SLoc.path := by decide
 theorem toS_cookie : GLoc.cookie.toS ≠ SLoc.path := by decide
 
-theorem stdBody_ok {op : Op} {args : GArgs} (h : StdCall op args) : ∃ b, stdBody op args = .ok b := by
+theorem stdBody_ok {op : Op} {args : GArgs} (h : StdCall op args) (hs : isMulti op = false) :
+    ∃ b, stdBody op args = .ok b := by
   unfold stdBody
   cases hb : op.body with
   | none => exact ⟨_, rfl⟩
@@ -94,9 +111,24 @@ theorem stdBody_ok {op : Op} {args : GArgs} (h : StdCall op args) : ∃ b, stdBo
       | files => exact ⟨_, rfl⟩
       | form => exact ⟨_, rfl⟩
       | bytes =>
-        have := h.bodyKnown b mt hb hp
+        have := h.bodyKnown hs b mt hb hp
         simp only [this]
         exact ⟨_, rfl⟩
+
+theorem ovlBody_ok {op : Op} {args : GArgs} (h : StdCall op args) (hm : isMulti op = true) :
+    ∃ b, ovlBody op args = .ok b := by
+  unfold ovlBody
+  rcases h.bodyGiven hm with ⟨b, hb⟩ | hopt
+  · exact ⟨b, by rw [hb]⟩
+  · cases hd : dispatchBody args ((op.body.map (·.media)).getD []) with
+    | none => exact ⟨.none, by simp only [hopt, Bool.false_eq_true, if_false]⟩
+    | some b => exact ⟨b, rfl⟩
+
+theorem reqBody_ok {op : Op} {args : GArgs} (h : StdCall op args) : ∃ b, reqBody op args = .ok b := by
+  unfold reqBody
+  cases hm : isMulti op with
+  | false => simpa using stdBody_ok h hm
+  | true => simpa using ovlBody_ok h hm
 
 /-- The values written through `_string_value_expr` for a well-typed call are all `str`. -/
 theorem strEntries_isStr {op : Op} {args : GArgs} (h : StdCall op args) (loc : GLoc) (hl : loc.toS ≠ .path)
@@ -141,6 +173,27 @@ theorem cookies_ok {op : Op} {args : GArgs} (h : StdCall op args) : cookieValues
       cases hv : e.2 <;> simp_all [GValue.isStr, GValue.isOther]
     · cases hes
 
+/-- The transport call of a well-typed call goes through (no `TypeError` from httpx / http.cookiejar). -/
+theorem sendRequest_ok {op : Op} {args : GArgs} (h : StdCall op args) (pieces : List Piece) (b : BodyArg) :
+    sendRequest op args pieces b =
+      .ok (⟨op.method, pieces, stdQuery op args, stdHeaders op args, b, stdCookies op args⟩ : Request) := by
+  unfold sendRequest
+  simp only [headers_ok h, cookies_ok h, Bool.not_true, Bool.false_eq_true, if_false]
+
+/-- What a request that went out is made of. -/
+theorem sendRequest_inv {op : Op} {args : GArgs} {pieces : List Piece} {b : BodyArg} {r : Request}
+    (h : sendRequest op args pieces b = .ok r) :
+    r.method = op.method ∧ r.path = pieces ∧ r.query = stdQuery op args ∧ r.headers = stdHeaders op args ∧
+      r.cookies = stdCookies op args ∧ r.body = b := by
+  unfold sendRequest at h
+  split at h
+  · cases h
+  · split at h
+    · cases h
+    · simp only [Except.ok.injEq] at h
+      subst h
+      exact ⟨rfl, rfl, rfl, rfl, rfl, rfl⟩
+
 /-- In the single-media method every `{var}` of the template is a parameter of the method (declared, or added
     by `_ensure_path_variables_as_params`): the URL f-string never reads an unbound name. -/
 theorem url_ok (op : Op) (args : GArgs) :
@@ -151,22 +204,148 @@ theorem url_ok (op : Op) (args : GArgs) :
   rw [← sanMethod_idempotent v]
   exact List.mem_map.mpr ⟨q, hq, by simp [PInfo.ident, hqn]⟩
 
-/-- The request of a well-typed call of a single-media operation, in closed form. -/
+/-! ### the path variables of the implementation method for several media types (F12 repaired) -/
+
+theorem mem_dedupStr : ∀ (l seen : List Str) (x : Str), x ∈ l → x ∈ seen ∨ x ∈ dedupStr l seen
+  | [], _, _, h => by cases h
+  | y :: ys, seen, x, h => by
+    simp only [dedupStr]
+    by_cases hy : y ∈ seen
+    · simp only [hy, if_true]
+      rcases List.mem_cons.mp h with rfl | h'
+      · exact Or.inl hy
+      · exact mem_dedupStr ys seen x h'
+    · simp only [hy, if_false]
+      rcases List.mem_cons.mp h with rfl | h'
+      · exact Or.inr (List.mem_cons_self ..)
+      · rcases mem_dedupStr ys (y :: seen) x h' with h'' | h''
+        · rcases List.mem_cons.mp h'' with rfl | h3
+          · exact Or.inr (List.mem_cons_self ..)
+          · exact Or.inl h3
+        · exact Or.inr (List.mem_cons_of_mem _ h'')
+
+/-- Every declared media type has its content-type keyword in the implementation signature. -/
+theorem ctParam_mem_keywordOnly {media : List Str} {mt : Str} (h : mt ∈ media) : ctParam mt ∈ ovlKeywordOnly media := by
+  unfold ovlKeywordOnly
+  rcases mem_dedupStr (media.map ctParam) [] (ctParam mt) (List.mem_map_of_mem h) with h' | h'
+  · cases h'
+  · exact h'
+
+theorem primaryBody_json {media : List Str} {mt : Str} (h : primaryBody media = some (mt, .json)) : mtJson ∈ media := by
+  unfold primaryBody at h
+  split at h
+  · cases h
+  · split at h
+    · next hj => exact hj
+    · split at h
+      · cases h
+      · split at h
+        · cases h
+        · cases h
+
+theorem primaryBody_files {media : List Str} {mt : Str} (h : primaryBody media = some (mt, .files)) :
+    mtMultipart ∈ media := by
+  unfold primaryBody at h
+  split at h
+  · next hj => exact hj
+  · split at h
+    · cases h
+    · split at h
+      · cases h
+      · split at h
+        · cases h
+        · cases h
+
+theorem bodyInfo_name {body : Option GBody} {taken : List Str} {q : PInfo} (h : q ∈ bodyInfo body taken) :
+    ∃ b mt k, body = some b ∧ primaryBody b.media = some (mt, k) ∧ q.name = k.param := by
+  unfold bodyInfo at h
+  split at h
+  · cases h
+  · next b =>
+    split at h
+    · cases h
+    · next mt k hpb =>
+      split at h
+      · cases h
+      · simp only [List.mem_singleton] at h
+        subst h
+        exact ⟨b, mt, k, rfl, hpb, rfl⟩
+
+/-- In the implementation method for several media types every `{var}` of the template is a parameter of the method
+    (F12 repaired: the positional parameters are those of the single-content signature, path variables without a
+    parameter object included) - unless the variable is named like the single-content body parameter that is NOT one
+    of the content-type keywords (`form_data`, `bytes_content`; `files` and `body` are keywords whenever they are the
+    body parameter's name). -/
+theorem multi_path_vars_bound (op : Op) (hmulti : isMulti op = true) (v : Str) (hv : v ∈ pathVars op.path)
+    (hne : sanMethod v ≠ "form_data".toList ∧ sanMethod v ≠ "bytes_content".toList) :
+    sanMethod v ∈ (sigOf op).map (·.1) := by
+  obtain ⟨q, hq, hqn⟩ := pathVar_has_param op v hv
+  rw [sigOf_multi hmulti, List.map_append, List.map_append]
+  by_cases hb : q.loc = .body
+  · have hq' := hq
+    rw [mem_orderedParams] at hq'
+    unfold unsortedParams at hq'
+    simp only [List.mem_append] at hq'
+    rcases hq' with (hq' | hq') | hq'
+    · obtain ⟨p, _, rfl⟩ := List.mem_map.mp hq'
+      exact absurd hb (info_loc_ne_body p)
+    · obtain ⟨b, mt, k, hbody, hpb, hname⟩ := bodyInfo_name hq'
+      have hmedia : (op.body.map (·.media)).getD [] = b.media := by simp [hbody]
+      have hkw : ∀ m ∈ b.media, ctParam m ∈
+          ((ovlKeywordOnly ((op.body.map (·.media)).getD [])).map (fun x => (x, false))).map (·.1) := by
+        intro m hm
+        rw [hmedia, List.map_map]
+        exact List.mem_map.mpr ⟨ctParam m, ctParam_mem_keywordOnly hm, rfl⟩
+      rw [← hqn, hname]
+      cases k with
+      | json =>
+        have := hkw mtJson (primaryBody_json hpb)
+        exact List.mem_append_left _ (List.mem_append_right _ this)
+      | files =>
+        have := hkw mtMultipart (primaryBody_files hpb)
+        exact List.mem_append_left _ (List.mem_append_right _ this)
+      | form => exact absurd (hqn.symm.trans hname) hne.1
+      | bytes => exact absurd (hqn.symm.trans hname) hne.2
+    · have := undeclaredInfos_loc _ _ q hq'
+      rw [this] at hb
+      cases hb
+  · refine List.mem_append_left _ (List.mem_append_left _ ?_)
+    unfold ovlPositional
+    rw [List.map_map]
+    refine List.mem_map.mpr ⟨q, List.mem_filter.mpr ⟨hq, by simpa using hb⟩, ?_⟩
+    simp [PInfo.ident, hqn, sanMethod_idempotent]
+
+theorem url_ok_multi {op : Op} {args : GArgs} (h : StdCall op args) (hm : isMulti op = true) :
+    urlPieces ((sigOf op).map (·.1)) args op.path = .ok (substPath args op.path) :=
+  urlPieces_ok _ args op.path (h.pathBound hm)
+
+/-- The request of a well-typed call, in closed form - the same for an operation with one request media type and (F12
+    repaired) with several: only the body keyword (`reqBody`) is chosen differently. -/
 theorem buildRequest_std {op : Op} {args : GArgs} (h : StdCall op args) :
-    ∃ b, stdBody op args = .ok b ∧
+    ∃ b, reqBody op args = .ok b ∧
       buildRequest op args =
         .ok (⟨op.method, substPath args op.path, stdQuery op args, stdHeaders op args, b, stdCookies op args⟩ : Request) := by
-  obtain ⟨b, hb⟩ := stdBody_ok h
+  obtain ⟨b, hb⟩ := reqBody_ok h
   refine ⟨b, hb, ?_⟩
+  unfold reqBody at hb
   unfold buildRequest
-  simp only [h.importable, h.single, Bool.not_true, Bool.false_eq_true, if_false]
-  unfold buildStd
-  simp only [h.bound, Bool.not_true, Bool.false_eq_true, if_false, url_ok op args, hb, headers_ok h, cookies_ok h]
+  cases hm : isMulti op with
+  | false =>
+    simp only [hm, Bool.false_eq_true, if_false] at hb
+    simp only [h.importable, Bool.not_true, Bool.false_eq_true, if_false]
+    unfold buildStd
+    simp only [h.bound, Bool.not_true, Bool.false_eq_true, if_false, url_ok op args, hb, sendRequest_ok h]
+  | true =>
+    simp only [hm, if_true] at hb
+    simp only [h.importable, Bool.not_true, Bool.false_eq_true, if_false, if_true]
+    unfold buildOvl
+    simp only [h.bound, Bool.not_true, Bool.false_eq_true, if_false, url_ok_multi h hm, hb, sendRequest_ok h]
 
 /-! ## exactly one request -/
 
 /-- Awaiting the method reaches the transport AT MOST once — for every operation and every argument
-    assignment; and exactly once for a well-typed call of a single-media operation. -/
+    assignment; and exactly once for a well-typed call - of an operation with one request media type or (F12, F62
+    repaired) with several. -/
 theorem exactly_one_request (op : Op) (args : GArgs) :
     (wire op args).length ≤ 1 ∧ (StdCall op args → (wire op args).length = 1) := by
   constructor
@@ -176,26 +355,6 @@ theorem exactly_one_request (op : Op) (args : GArgs) :
     unfold wire
     rw [hb]
     rfl
-
-/-- A well-typed call of an operation with several request media types (every positional parameter given,
-    every path variable declared, and a body keyword given or - F62 repaired - the requestBody optional) also sends
-    exactly one request. -/
-theorem exactly_one_request_multi (op : Op) (args : GArgs) (hm : moduleOk op = true) (hmulti : isMulti op = true)
-    (hb : bindOk (sigOf op) args = true)
-    (hv : ∀ v ∈ pathVars op.path, sanMethod v ∈ (sigOf op).map (·.1))
-    (hbody : (∃ b, dispatchBody args ((op.body.map (·.media)).getD []) = some b) ∨
-      (op.body.map (·.required)).getD true = false) :
-    (wire op args).length = 1 := by
-  unfold wire buildRequest
-  simp only [hm, hmulti, Bool.not_true, Bool.false_eq_true, if_false, if_true]
-  unfold buildOvl
-  simp only [hb, Bool.not_true, Bool.false_eq_true, if_false, urlPieces_ok _ args op.path hv]
-  rcases hbody with ⟨b, hbd⟩ | hopt
-  · simp only [hbd]
-    rfl
-  · cases hd : dispatchBody args ((op.body.map (·.media)).getD []) with
-    | none => simp only [hopt, Bool.false_eq_true, if_false]; rfl
-    | some b => rfl
 
 /-- `PATCH /docs/{id}` whose OPTIONAL requestBody has two media types. -/
 def exOptBody : Op :=
@@ -214,27 +373,32 @@ theorem optional_body_omitted_former_witness :
       = .error .valueError := by
   decide +kernel
 
-/-- The repair in general: a well-typed call (every positional parameter given, every path variable declared) of an
-    operation with several request media types whose requestBody is OPTIONAL, made without any body keyword, sends the
-    request without a body. -/
-theorem optional_body_can_be_omitted (op : Op) (args : GArgs) (hm : moduleOk op = true) (hmulti : isMulti op = true)
-    (hb : bindOk (sigOf op) args = true)
-    (hv : ∀ v ∈ pathVars op.path, sanMethod v ∈ (sigOf op).map (·.1))
-    (hopt : (op.body.map (·.required)).getD true = false)
-    (hnone : dispatchBody args ((op.body.map (·.media)).getD []) = none) :
-    buildRequest op args = .ok
-      { method := op.method, path := substPath args op.path, query := none, headers := none, body := .none } := by
-  unfold buildRequest
-  simp only [hm, hmulti, Bool.not_true, Bool.false_eq_true, if_false, if_true]
-  unfold buildOvl
-  simp only [hb, Bool.not_true, Bool.false_eq_true, if_false, urlPieces_ok _ args op.path hv, hnone, hopt]
+theorem exOptBody_stdCall : StdCall exOptBody [("id_".toList, .str "7".toList)] where
+  importable := by decide +kernel
+  bound := by decide +kernel
+  headerStr := by decide +kernel
+  bodyKnown := by intro h; exact absurd h (by decide)
+  bodyGiven := by intro _; exact Or.inr (by decide)
+  pathBound := by decide +kernel
 
-example : moduleOk exOptBody = true ∧ isMulti exOptBody = true ∧
-    bindOk (sigOf exOptBody) [("id_".toList, .str "7".toList)] = true ∧
-    (∀ v ∈ pathVars exOptBody.path, sanMethod v ∈ (sigOf exOptBody).map (·.1)) ∧
-    (exOptBody.body.map (·.required)).getD true = false ∧
-    dispatchBody [("id_".toList, .str "7".toList)] ((exOptBody.body.map (·.media)).getD []) = none := by
-  decide +kernel
+/-- The repair in general: a well-typed call of an operation with several request media types whose requestBody is
+    OPTIONAL, made without any body keyword, sends its one request without a body. -/
+theorem optional_body_can_be_omitted (op : Op) (args : GArgs) (h : StdCall op args) (hmulti : isMulti op = true)
+    (hnone : dispatchBody args ((op.body.map (·.media)).getD []) = none) :
+    ∃ r, wire op args = [r] ∧ r.body = .none := by
+  obtain ⟨b, hb, hr⟩ := buildRequest_std h
+  refine ⟨_, by unfold wire; rw [hr], ?_⟩
+  have hopt : (op.body.map (·.required)).getD true = false := by
+    rcases h.bodyGiven hmulti with ⟨b', hb'⟩ | hopt
+    · rw [hnone] at hb'; cases hb'
+    · exact hopt
+  unfold reqBody ovlBody at hb
+  simp only [hmulti, if_true, hnone, hopt, Bool.false_eq_true, if_false, Except.ok.injEq] at hb
+  exact hb.symm
+
+example : StdCall exOptBody [("id_".toList, .str "7".toList)] ∧ isMulti exOptBody = true ∧
+    dispatchBody [("id_".toList, .str "7".toList)] ((exOptBody.body.map (·.media)).getD []) = none :=
+  ⟨exOptBody_stdCall, by decide, by decide +kernel⟩
 
 /-- A `GET /pets/{petId}` with a path-level header, an optional and a required query parameter and a JSON body. -/
 def exOp : Op :=
@@ -250,11 +414,10 @@ def exArgs : GArgs :=
 
 theorem exOp_stdCall : StdCall exOp exArgs where
   importable := by decide +kernel
-  single := by decide
   bound := by decide +kernel
   headerStr := by decide +kernel
   bodyKnown := by
-    intro b mt hb hp
+    intro _ b mt hb hp
     have hb' : b = ⟨true, [mtJson]⟩ := by
       have : exOp.body = some ⟨true, [mtJson]⟩ := rfl
       rw [this] at hb
@@ -263,6 +426,8 @@ theorem exOp_stdCall : StdCall exOp exArgs where
     have h2 : primaryBody [mtJson] = some (mtJson, .json) := by decide
     rw [h2] at hp
     cases hp
+  bodyGiven := by intro h; exact absurd h (by decide)
+  pathBound := by intro h; exact absurd h (by decide)
 
 example : buildRequest exOp exArgs = .ok
     { method := "POST".toList,
@@ -319,47 +484,40 @@ theorem mem_stdCookies_iff (op : Op) (args : GArgs) (e : Str × GValue) :
     obtain ⟨p, hp, hpl, _⟩ := (mem_strEntries_iff op args .cookie toS_cookie e).mp he
     exact hn ((any_loc_iff op .cookie toS_cookie).mpr ⟨p, hp, hpl⟩)
 
-/-- What a request of the single-media method is made of. -/
-theorem buildStd_ok {op : Op} {args : GArgs} {r : Request} (h : buildStd op args = .ok r) :
-    r.method = op.method ∧ r.query = stdQuery op args ∧ r.headers = stdHeaders op args ∧
+/-- What a request that reached the transport is made of - for every operation (one or several request media types)
+    and every call: the module imports and the three dicts are `stdQuery` / `stdHeaders` / `stdCookies`. -/
+theorem buildRequest_inv {op : Op} {args : GArgs} {r : Request} (h : buildRequest op args = .ok r) :
+    moduleOk op = true ∧ r.method = op.method ∧ r.query = stdQuery op args ∧ r.headers = stdHeaders op args ∧
       r.cookies = stdCookies op args := by
-  unfold buildStd at h
+  unfold buildRequest at h
   split at h
   · cases h
-  · split at h
-    · cases h
-    · split at h
+  · next hm =>
+    have hm : moduleOk op = true := by simpa using hm
+    split at h
+    · unfold buildOvl at h
+      split at h
       · cases h
       · split at h
         · cases h
         · split at h
           · cases h
-          · simp only [Except.ok.injEq] at h
-            subst h
-            exact ⟨rfl, rfl, rfl, rfl⟩
-
-/-- What a request of the implementation method for several media types is made of: no query, no headers, no cookies. -/
-theorem buildOvl_ok {op : Op} {args : GArgs} {r : Request} (h : buildOvl op args = .ok r) :
-    r.method = op.method ∧ r.query = none ∧ r.headers = none ∧ r.cookies = none := by
-  unfold buildOvl at h
-  split at h
-  · cases h
-  · split at h
-    · cases h
-    · split at h
+          · obtain ⟨h1, _, h2, h3, h4, _⟩ := sendRequest_inv h
+            exact ⟨hm, h1, h2, h3, h4⟩
+    · unfold buildStd at h
+      split at h
+      · cases h
       · split at h
         · cases h
-        · simp only [Except.ok.injEq] at h
-          subst h
-          exact ⟨rfl, rfl, rfl, rfl⟩
-      · simp only [Except.ok.injEq] at h
-        subst h
-        exact ⟨rfl, rfl, rfl, rfl⟩
+        · split at h
+          · cases h
+          · obtain ⟨h1, _, h2, h3, h4, _⟩ := sendRequest_inv h
+            exact ⟨hm, h1, h2, h3, h4⟩
 
-/-- In an importable single-media method the entries of a dict that stem from declared parameters (each required or given
-    a non-None value) have no entry under the name of an optional parameter left as `None`: two declared parameters
-    with the same original name are the same entry of `ordered_params`. -/
-theorem no_entry_for_none {op : Op} {args : GArgs} (hm : moduleOk op = true) (hs : isMulti op = false)
+/-- In an importable method the entries of a dict that stem from declared parameters (each required or given a non-None
+    value) have no entry under the name of an optional parameter left as `None`: two declared parameters with the same
+    original name are the same entry of `ordered_params`. -/
+theorem no_entry_for_none {op : Op} {args : GArgs} (hm : moduleOk op = true)
     {p : GParam} (hp : p ∈ op.params) (hopt : p.required = false) (hnone : argVal args p.ident = .none)
     (val : GParam → GValue) {es : List (Str × GValue)}
     (hes : ∀ e ∈ es, ∃ p' ∈ op.params, e = (p'.name, val p') ∧ (p'.required = true ∨ argVal args p'.ident ≠ .none)) :
@@ -367,7 +525,7 @@ theorem no_entry_for_none {op : Op} {args : GArgs} (hm : moduleOk op = true) (hs
   intro e he hname
   obtain ⟨p', hp', rfl, hreq⟩ := hes e he
   have hi : p'.info = p.info :=
-    ordered_ident_inj hm hs (info_mem_ordered op p' hp') (info_mem_ordered op p hp)
+    nonbody_ident_inj hm (info_mem_ordered op p' hp') (info_mem_ordered op p hp) (info_loc_ne_body p') (info_loc_ne_body p)
       (by simp [info_ident, GParam.ident, show p'.name = p.name from hname])
   have hreq' : p'.required = p.required := by
     have := congrArg PInfo.required hi; simpa [GParam.info] using this
@@ -379,14 +537,16 @@ theorem no_entry_for_none {op : Op} {args : GArgs} (hm : moduleOk op = true) (hs
 
 /-! ## fidelity -/
 
-/-- C04 for the inputs the generator gets right: a well-typed call of a single-media operation yields ONE
-    request with
+/-- C04 for the inputs the generator gets right: a well-typed call of an operation - with one request media type, none,
+    or (F12 repaired) several - yields ONE request with
     * the operation's method,
     * the path template with every `{v}` replaced by the value bound to `sanitize_method_name(v)`,
     * a query (header, cookie) entry `original name ↦ value` for every query (header, cookie) parameter that is required
       or was given a non-None value - a header or cookie value in its string form when the parameter is declared integer /
       number / boolean -, no entry for an optional one left as None, and nothing else,
-    * the body keyword of the primary media type carrying the value of the body parameter;
+    * the body keyword of the primary media type carrying the value of the body parameter - for several media types:
+      the keyword of the first media type (in spec order) whose content-type parameter was given, carrying that value,
+      and no body when none was given and the requestBody is optional;
     and, when every parameter has one of the four locations and every path parameter occurs in the template, no supplied
     argument is dropped: every non-None value of a declared parameter is in the location the spec names. -/
 theorem request_fidelity_partial (op : Op) (args : GArgs) (h : StdCall op args) :
@@ -412,11 +572,14 @@ theorem request_fidelity_partial (op : Op) (args : GArgs) (h : StdCall op args) 
           ∀ e ∈ r.cookies.getD [], e.1 ≠ p.name) ∧
       (∀ e ∈ r.cookies.getD [], ∃ p ∈ op.params, p.loc = .cookie ∧ e = (p.name, strValue p.kind (argVal args p.ident))) ∧
       -- body
-      stdBody op args = .ok r.body ∧
-      (∀ b k mt, op.body = some b → primaryBody b.media = some (mt, k) →
+      reqBody op args = .ok r.body ∧
+      (isMulti op = false → ∀ b k mt, op.body = some b → primaryBody b.media = some (mt, k) →
           r.body = mkBody (match k with | .json => BodyArg.json | .files => .files | .form => .data | .bytes => .data)
             (argVal args k.param)) ∧
       (op.body = none → r.body = .none) ∧
+      (isMulti op = true → ∀ b, op.body = some b →
+          dispatchBody args b.media = some r.body ∨
+          (dispatchBody args b.media = none ∧ b.required = false ∧ r.body = .none)) ∧
       -- nothing dropped
       (AllSendable op → ∀ p ∈ op.params, argVal args p.ident ≠ .none →
           (p.loc = .path ∧ Piece.val (argVal args p.ident) ∈ r.path) ∨
@@ -430,8 +593,8 @@ theorem request_fidelity_partial (op : Op) (args : GArgs) (h : StdCall op args) 
   have habsent : ∀ (val : GParam → GValue) (es : List (Str × GValue)),
       (∀ e ∈ es, ∃ p' ∈ op.params, e = (p'.name, val p') ∧ (p'.required = true ∨ argVal args p'.ident ≠ .none)) →
       ∀ p ∈ op.params, p.required = false → argVal args p.ident = .none → ∀ e ∈ es, e.1 ≠ p.name :=
-    fun val es hes p hp hopt hnone => no_entry_for_none h.importable h.single hp hopt hnone val hes
-  refine ⟨_, hr, by unfold wire; rw [hr], rfl, rfl, ?_, ?_, ?_, ?_, ?_, ?_, ?_, ?_, ?_, hb, ?_, ?_, ?_⟩
+    fun val es hes p hp hopt hnone => no_entry_for_none h.importable hp hopt hnone val hes
+  refine ⟨_, hr, by unfold wire; rw [hr], rfl, rfl, ?_, ?_, ?_, ?_, ?_, ?_, ?_, ?_, ?_, hb, ?_, ?_, ?_, ?_⟩
   · intro p hp hpl hreq
     exact (hq _).mpr ⟨p, hp, hpl, rfl, hreq⟩
   · intro p hp _ hopt hnone
@@ -459,20 +622,38 @@ theorem request_fidelity_partial (op : Op) (args : GArgs) (h : StdCall op args) 
   · intro e he
     obtain ⟨p, hp, hpl, rfl, _⟩ := (hc e).mp he
     exact ⟨p, hp, hpl, rfl⟩
-  · intro bd k mt hbd hpb
-    unfold stdBody at hb
-    simp only [hbd, hpb] at hb
+  · intro hs bd k mt hbd hpb
+    unfold reqBody stdBody at hb
+    simp only [hs, Bool.false_eq_true, if_false, hbd, hpb] at hb
     cases k with
     | json => simp only [Except.ok.injEq] at hb; exact hb.symm
     | files => simp only [Except.ok.injEq] at hb; exact hb.symm
     | form => simp only [Except.ok.injEq] at hb; exact hb.symm
     | bytes =>
-      simp only [h.bodyKnown bd mt hbd hpb, Bool.false_eq_true, if_false, Except.ok.injEq] at hb
+      simp only [h.bodyKnown hs bd mt hbd hpb, Bool.false_eq_true, if_false, Except.ok.injEq] at hb
       exact hb.symm
   · intro hnb
-    unfold stdBody at hb
-    simp only [hnb, Except.ok.injEq] at hb
+    have hs : isMulti op = false := by simp [isMulti, hnb]
+    unfold reqBody stdBody at hb
+    simp only [hs, Bool.false_eq_true, if_false, hnb, Except.ok.injEq] at hb
     exact hb.symm
+  · intro hm bd hbd
+    unfold reqBody ovlBody at hb
+    simp only [hm, if_true, hbd, Option.map_some, Option.getD_some] at hb
+    cases hd : dispatchBody args bd.media with
+    | none =>
+      right
+      rw [hd] at hb
+      cases hreq : bd.required with
+      | true => simp only [hreq, if_true] at hb; cases hb
+      | false =>
+        simp only [hreq, Bool.false_eq_true, if_false, Except.ok.injEq] at hb
+        exact ⟨rfl, rfl, hb.symm⟩
+    | some b' =>
+      left
+      rw [hd] at hb
+      simp only [Except.ok.injEq] at hb
+      rw [hb]
   · intro hs p hp hv
     rcases hs.knownLoc p hp with hl | hl | hl | hl
     · left
@@ -499,30 +680,18 @@ theorem optional_none_omitted (op : Op) (args : GArgs) (r : Request) (h : buildR
     (p.loc = .query → ∀ e ∈ r.query.getD [], e.1 ≠ p.name) ∧
     (p.loc = .header → ∀ e ∈ r.headers.getD [], e.1 ≠ p.name) ∧
     (p.loc = .cookie → ∀ e ∈ r.cookies.getD [], e.1 ≠ p.name) := by
-  unfold buildRequest at h
-  split at h
-  · cases h
-  · next hm =>
-    have hm : moduleOk op = true := by simpa using hm
-    split at h
-    · -- several media types: `params=None, headers=None`, no `cookies`
-      obtain ⟨_, h1, h2, h3⟩ := buildOvl_ok h
-      rw [h1, h2, h3]
-      exact ⟨fun _ e he => (by simp at he), fun _ e he => (by simp at he), fun _ e he => (by simp at he)⟩
-    · next hs =>
-      have hs : isMulti op = false := by simpa using hs
-      obtain ⟨_, h1, h2, h3⟩ := buildStd_ok h
-      rw [h1, h2, h3]
-      refine ⟨fun _ => ?_, fun _ => ?_, fun _ => ?_⟩
-      · refine no_entry_for_none hm hs hp hopt hnone (fun p => argVal args p.ident) (fun e he => ?_)
-        obtain ⟨p', hp', _, he', hreq⟩ := (mem_stdQuery_iff op args e).mp he
-        exact ⟨p', hp', he', hreq⟩
-      · refine no_entry_for_none hm hs hp hopt hnone (fun p => strValue p.kind (argVal args p.ident)) (fun e he => ?_)
-        obtain ⟨p', hp', _, he', hreq⟩ := (mem_stdHeaders_iff op args e).mp he
-        exact ⟨p', hp', he', hreq⟩
-      · refine no_entry_for_none hm hs hp hopt hnone (fun p => strValue p.kind (argVal args p.ident)) (fun e he => ?_)
-        obtain ⟨p', hp', _, he', hreq⟩ := (mem_stdCookies_iff op args e).mp he
-        exact ⟨p', hp', he', hreq⟩
+  obtain ⟨hm, _, h1, h2, h3⟩ := buildRequest_inv h
+  rw [h1, h2, h3]
+  refine ⟨fun _ => ?_, fun _ => ?_, fun _ => ?_⟩
+  · refine no_entry_for_none hm hp hopt hnone (fun p => argVal args p.ident) (fun e he => ?_)
+    obtain ⟨p', hp', _, he', hreq⟩ := (mem_stdQuery_iff op args e).mp he
+    exact ⟨p', hp', he', hreq⟩
+  · refine no_entry_for_none hm hp hopt hnone (fun p => strValue p.kind (argVal args p.ident)) (fun e he => ?_)
+    obtain ⟨p', hp', _, he', hreq⟩ := (mem_stdHeaders_iff op args e).mp he
+    exact ⟨p', hp', he', hreq⟩
+  · refine no_entry_for_none hm hp hopt hnone (fun p => strValue p.kind (argVal args p.ident)) (fun e he => ?_)
+    obtain ⟨p', hp', _, he', hreq⟩ := (mem_stdCookies_iff op args e).mp he
+    exact ⟨p', hp', he', hreq⟩
 
 /-! ## cookie parameters (F11 repaired) -/
 
@@ -550,66 +719,89 @@ theorem no_entry_without_parameter (op : Op) (args : GArgs) (r : Request) (h : b
     (∀ e ∈ r.query.getD [], ∃ p ∈ op.params, p.loc = .query ∧ e = (p.name, argVal args p.ident)) ∧
     (∀ e ∈ r.headers.getD [], ∃ p ∈ op.params, p.loc = .header ∧ e = (p.name, strValue p.kind (argVal args p.ident))) ∧
     (∀ e ∈ r.cookies.getD [], ∃ p ∈ op.params, p.loc = .cookie ∧ e = (p.name, strValue p.kind (argVal args p.ident))) := by
-  unfold buildRequest at h
-  split at h
-  · cases h
-  · split at h
-    · obtain ⟨_, h1, h2, h3⟩ := buildOvl_ok h
-      rw [h1, h2, h3]
-      exact ⟨fun e he => (by simp at he), fun e he => (by simp at he), fun e he => (by simp at he)⟩
-    · obtain ⟨_, h1, h2, h3⟩ := buildStd_ok h
-      rw [h1, h2, h3]
-      refine ⟨fun e he => ?_, fun e he => ?_, fun e he => ?_⟩
-      · obtain ⟨p, hp, hpl, rfl, _⟩ := (mem_stdQuery_iff op args e).mp he
-        exact ⟨p, hp, hpl, rfl⟩
-      · obtain ⟨p, hp, hpl, rfl, _⟩ := (mem_stdHeaders_iff op args e).mp he
-        exact ⟨p, hp, hpl, rfl⟩
-      · obtain ⟨p, hp, hpl, rfl, _⟩ := (mem_stdCookies_iff op args e).mp he
-        exact ⟨p, hp, hpl, rfl⟩
+  obtain ⟨_, _, h1, h2, h3⟩ := buildRequest_inv h
+  rw [h1, h2, h3]
+  refine ⟨fun e he => ?_, fun e he => ?_, fun e he => ?_⟩
+  · obtain ⟨p, hp, hpl, rfl, _⟩ := (mem_stdQuery_iff op args e).mp he
+    exact ⟨p, hp, hpl, rfl⟩
+  · obtain ⟨p, hp, hpl, rfl, _⟩ := (mem_stdHeaders_iff op args e).mp he
+    exact ⟨p, hp, hpl, rfl⟩
+  · obtain ⟨p, hp, hpl, rfl, _⟩ := (mem_stdCookies_iff op args e).mp he
+    exact ⟨p, hp, hpl, rfl⟩
 
-/-! ## ✗ several request media types -/
+/-! ## several request media types (F12 repaired) -/
 
-/-- `POST /upload` with a required query and a required header parameter and two request media types. -/
+/-- `POST /upload/{id}` with a required query, an optional query, a required header and an optional cookie parameter,
+    a path variable WITHOUT a parameter object, and two request media types. -/
 def exMulti : Op :=
-  ⟨"POST".toList, [.lit "/upload".toList],
-   [⟨"folder".toList, .query, true, .plain⟩, ⟨"X-Token".toList, .header, true, .plain⟩], some ⟨true, [mtJson, mtMultipart]⟩,
-   [⟨.num 200, []⟩]⟩
+  ⟨"POST".toList, [.lit "/upload/".toList, .var "id".toList],
+   [⟨"folder".toList, .query, true, .plain⟩, ⟨"limit".toList, .query, false, .num⟩,
+    ⟨"X-Token".toList, .header, true, .plain⟩, ⟨"sid".toList, .cookie, false, .plain⟩],
+   some ⟨true, [mtJson, mtMultipart]⟩, [⟨.num 200, []⟩]⟩
 
-/-- ✗ C04: with ≥ 2 request media types the implementation method sends `params=None, headers=None` —
-    the supplied query and header arguments are dropped. -/
-theorem multi_content_drops_query_counterexample :
-    buildRequest exMulti
-      [("folder".toList, .str "inbox".toList), ("x_token".toList, .str "t0k".toList), ("body".toList, .other "B".toList)]
-    = .ok { method := "POST".toList, path := [.lit "/upload".toList], query := none, headers := none,
-            body := .json (.other "B".toList) } := by
+def exMultiArgs : GArgs :=
+  [("id_".toList, .str "7".toList), ("folder".toList, .str "inbox".toList), ("x_token".toList, .str "t0k".toList),
+   ("sid".toList, .str "s1".toList), ("body".toList, .other "B".toList)]
+
+/-- (≥ 2 request media types: query and header arguments are sent)  The FORMER WITNESS of F12: the implementation
+    method used to send `params=None, headers=None` (the supplied query and header arguments were dropped), did not
+    accept the cookie parameter, had no default for the optional `limit` (leaving it out was a `TypeError`) and read
+    the undeclared path variable `id` as an unbound name (`NameError`).  Since the repair the method is built like the
+    single-content one: url / params / headers / cookies from `generate_url_and_args`, the positional parameters from
+    `process_parameters`. -/
+theorem multi_content_sends_query_former_witness :
+    sigOf exMulti =
+      [("folder".toList, true), ("x_token".toList, true), ("id_".toList, true), ("limit".toList, false),
+       ("sid".toList, false), ("body".toList, false), ("files".toList, false), ("content_type".toList, false)] ∧
+    buildRequest exMulti exMultiArgs
+      = .ok { method := "POST".toList, path := [.lit "/upload/".toList, .val (.str "7".toList)],
+              query := some [("folder".toList, .str "inbox".toList)],
+              headers := some [("X-Token".toList, .str "t0k".toList)],
+              body := .json (.other "B".toList),
+              cookies := some [("sid".toList, .str "s1".toList)] } := by
   decide +kernel
 
-/-- The general defect: EVERY request of an operation with ≥ 2 request media types has neither query nor headers. -/
-theorem multi_content_drops_query (op : Op) (args : GArgs) (r : Request) (hm : isMulti op = true)
-    (h : buildRequest op args = .ok r) : r.query = none ∧ r.headers = none := by
-  unfold buildRequest at h
-  split at h
-  · cases h
-  · obtain ⟨_, h1, h2, _⟩ := buildOvl_ok h
-    exact ⟨h1, h2⟩
+theorem exMulti_stdCall : StdCall exMulti exMultiArgs where
+  importable := by decide +kernel
+  bound := by decide +kernel
+  headerStr := by decide +kernel
+  bodyKnown := by intro h; exact absurd h (by decide)
+  bodyGiven := by intro _; exact Or.inl ⟨.json (.other "B".toList), by decide +kernel⟩
+  pathBound := by decide +kernel
 
-/-- ✗ … and an OPTIONAL parameter of such an operation has no default: leaving it out is a `TypeError`. -/
-theorem multi_content_optional_is_required_counterexample :
+/-- `request_fidelity_partial` covers it: the hypotheses hold of a call of an operation with several media types. -/
+example : StdCall exMulti exMultiArgs ∧ AllSendable exMulti ∧ isMulti exMulti = true :=
+  ⟨exMulti_stdCall, ⟨by decide +kernel, by decide +kernel⟩, by decide⟩
+
+/-- (≥ 2 media types: optional parameters are optional)  FORMER WITNESS (F12): an OPTIONAL parameter of such an
+    operation used to have no default - leaving it out was a `TypeError`.  Now it defaults to `None` and is omitted. -/
+theorem multi_content_optional_former_witness :
     buildRequest ⟨"POST".toList, [.lit "/upload".toList], [⟨"folder".toList, .query, false, .plain⟩],
         some ⟨true, [mtJson, mtMultipart]⟩, [⟨.num 200, []⟩]⟩ [("body".toList, .other "B".toList)]
-      = .error .typeError := by
+      = .ok { method := "POST".toList, path := [.lit "/upload".toList], query := some [], headers := none,
+              body := .json (.other "B".toList) } := by
   decide +kernel
 
-/-- ✗ … and a path variable without a parameter object is an unbound name (`NameError`) there, while the
-    single-media method adds it as a required `str` parameter. -/
-theorem multi_content_undeclared_path_var_counterexample :
+/-- (≥ 2 media types: undeclared path variables work)  FORMER WITNESS (F12): a path variable without a parameter object
+    used to be an unbound name (`NameError`) in the implementation method, while the single-media method adds it as a
+    required `str` parameter.  Now both do. -/
+theorem multi_content_undeclared_path_var_former_witness :
     buildRequest ⟨"POST".toList, [.lit "/a/".toList, .var "id".toList], [],
-        some ⟨true, [mtJson, mtMultipart]⟩, [⟨.num 200, []⟩]⟩ [("body".toList, .other "B".toList)]
-      = .error .nameError ∧
+        some ⟨true, [mtJson, mtMultipart]⟩, [⟨.num 200, []⟩]⟩ [("id_".toList, .str "7".toList), ("body".toList, .other "B".toList)]
+      = .ok { method := "POST".toList, path := [.lit "/a/".toList, .val (.str "7".toList)], query := none,
+              headers := none, body := .json (.other "B".toList) } ∧
     buildRequest ⟨"POST".toList, [.lit "/a/".toList, .var "id".toList], [],
         some ⟨true, [mtJson]⟩, [⟨.num 200, []⟩]⟩ [("id_".toList, .str "7".toList), ("body".toList, .other "B".toList)]
       = .ok { method := "POST".toList, path := [.lit "/a/".toList, .val (.str "7".toList)], query := none,
               headers := none, body := .json (.other "B".toList) } := by
+  decide +kernel
+
+/-- What remains of `pathBound` (outside `multi_path_vars_bound`): a path variable named like the single-content body
+    parameter that is no content-type keyword is added neither as a path parameter nor as a keyword - an unbound name. -/
+theorem multi_content_path_var_named_form_data_witness :
+    buildRequest ⟨"POST".toList, [.lit "/a/".toList, .var "form_data".toList], [],
+        some ⟨true, [mtForm, "application/xml".toList]⟩, [⟨.num 200, []⟩]⟩ [("data".toList, .other "D".toList)]
+      = .error .nameError := by
   decide +kernel
 
 /-! ## ✗ further excluded classes, each with a witness -/
